@@ -666,22 +666,50 @@ def r14_6(ctx):
             val = C.trace(ts, t["args"][2])
             if not (has_field(key, "listening") and any(l.kind == "param" and l.data == pc for l in val) and some_e and C.guarded(ts, bb, some_e)):
                 good = False
+        # listening is reset: `self.listening = None`, or Option::take / mem::take on the field
         resets = [bb for bb, si, st in ts.stmts() if st["k"] == "assign" and st["lhs"]["p"] and st["lhs"]["p"][-1].get("name") == "listening"
-                  and built_variant(ts, st["rv"]["op"]) == "None"] if ts else []
+                  and st["rv"]["k"] == "use" and built_variant(ts, st["rv"]["op"]) == "None"]
+        resets += [bb for bb, t in ts.calls() if C.callee_name(t) in ("std::option::Option::<T>::take", "std::mem::take")
+                   and has_field(C.trace(ts, t["args"][0], through_fields=True), "listening")]
         oks = ok_sites(ts)
         if good and resets and oks and all(C.guarded(ts, o, out_edges(ts, [bb for bb, t in ins])) for o in oks) and \
                 all(C.guarded(ts, o, out_edges(ts, resets)) or o in resets for o in oks):
-            ctx.ok("try_store: stored[listening] = content; listening = None; Ok only after both", site=ctx.site(ts, ins[0][0]))
+            ctx.ok("try_store: stored[listening] = content; listening reset; Ok only after both", site=ctx.site(ts, ins[0][0]))
         else:
             ctx.violation(["try_store"], "try_store no longer stores the offered content under the listening tag and stops listening before returning Ok",
                           site=ctx.site(ts, 0))
     inj = body(ctx, "tag_inject")
     if inj:
-        rem = [(bb, t) for bb, t in calls_to(inj, "std::collections::HashMap::<K, V, S, A>::remove") if has_field(C.trace(inj, t["args"][0]), "stored")]
         pushes_val = [(bb, t) for bb, t in calls_to(inj, "std::string::String::push_str")
                       if has_call(C.trace(inj, t["args"][1], through_fields=True), ROLE["replace_line_ending"])]
-        key_push = [(bb, t) for bb, t in calls_to(inj, "std::vec::Vec::<T, A>::push")]
-        if rem and pushes_val and key_push:
+        key_push = [(bb, t) for bb, t in calls_to(inj, "std::vec::Vec::<T, A>::push")] + \
+                   [(bb, t) for bb, t in calls_to(inj, "std::collections::HashSet::<T, S, A>::insert")]
+        queue_ids = set()
+        for bb, t in key_push:
+            for l in C.trace(inj, t["args"][0]):
+                queue_ids.add((l.kind, l.bb))
+        # removal: a loop of stored.remove(key) over the queue, or stored.retain(|k, _| !queue.contains(k))
+        rem = [(bb, t) for bb, t in calls_to(inj, "std::collections::HashMap::<K, V, S, A>::remove") if has_field(C.trace(inj, t["args"][0]), "stored")]
+        removal_ok = bool(rem)
+        for bb, t in calls_to(inj, "std::collections::HashMap::<K, V, S, A>::retain"):
+            if not has_field(C.trace(inj, t["args"][0]), "stored"):
+                continue
+            cl = lib.bodies.get(t["arg_tys"][1].get("closure", ""))
+            if cl is None:
+                continue
+            # the closure captures the queue and keeps an entry iff it is NOT in the queue
+            captured = False
+            for bb2, si2, st2 in inj.stmts():
+                if st2["k"] == "assign" and st2["rv"]["k"] == "aggregate" and st2["rv"]["agg"].get("def") == cl.name:
+                    for o in st2["rv"]["ops"]:
+                        if {(l.kind, l.bb) for l in C.trace(inj, o)} & queue_ids:
+                            captured = True
+            keeps_not_contained = any(l.kind == "call" and C.callee_name(l.data).endswith("::contains") and l.neg
+                                      for l in C.trace(cl, {"l": 0, "p": []}))
+            if captured and keeps_not_contained:
+                removal_ok = True
+                rem.append((bb, t))
+        if removal_ok and pushes_val and key_push:
             # the key is queued for removal on every path that substituted its value (before the next loop iteration / exit)
             ok = True
             for bb, t in pushes_val:
@@ -689,6 +717,10 @@ def r14_6(ctx):
                 reach = inj.reachable(bb, cut=out_edges(inj, [b2 for b2, t2 in key_push]))
                 if any(n in reach for n in nxt) or any(inj.term(r)["k"] == "return" for r in reach):
                     ok = False
+            # and the removal happens on every path to the return
+            rets = [r for r in C.live(inj) if inj.term(r)["k"] == "return"]
+            if rem and not all(C.guarded(inj, r, out_edges(inj, [b2 for b2, t2 in rem])) or inj.in_cycle(rem[0][0]) for r in rets):
+                ok = False
             if ok:
                 ctx.ok("inject_tags queues every substituted tag for removal and removes the queued tags", site=ctx.site(inj, rem[0][0]))
             else:
